@@ -39,7 +39,130 @@ def _key_gen(m):
     return "gen|%s|%s|members" % (m["kind"], m["damage"])
 
 
+# Size classes the synthesized WOFF containers of the record mode must contain.  They are counted by the
+# harness over its own inputs (sizes of the tables it built and of the streams it stored), never over what
+# allsorts returned.
+REQUIRED_CLASSES = (
+    ["woff:comp=%d" % n for n in (32767, 32768, 32769, 65535, 65536, 65537, 131072, 131073, 262144)]
+    + ["woff:comp>=262146", "woff:comp=2..32766"]
+    + ["woff:orig=%d" % n for n in (0, 1, 32767, 32768, 32769, 65535, 65536, 65537, 131072, 262144, 262145)]
+    + ["woff:orig>=262146"]
+    + ["woff:how:zlib-%d:comp%s32768" % (l, side) for l in range(10) for side in ("<=", ">")]
+    + ["woff:how:zlib-%d:comp>65536" % l for l in (1, 5, 9)]
+    + ["woff:how:raw", "woff:how:blocks-65535", "woff:how:blocks-1", "woff:how:blocks-32768"]
+    + ["woff:comp<orig:comp>32768", "woff:comp<orig:comp>65536", "woff:comp<orig:comp<=32768", "woff:comp>orig"]
+    + ["woff:data:%s:comp>32768" % d for d in ("rand", "rand+zeros", "text", "period32768", "period32769")]
+    + ["woff:data:%s:comp<=32768" % d for d in ("zeros", "period7", "period258", "text", "rand", "empty")]
+    + ["woff:data:zlib-stream", "sfnt:orig>=262146", "ttc:orig>=262146"]
+)
+
+SELF_REJECT = {("selftest-digest", "Query"), ("selftest-length", "Query"), ("selftest-beyond", "Provider"),
+               ("selftest-beyond", "Query"), ("selftest-absent", "Query")}
+
+
+def _plant(trace):
+    """Binding self-check events, derived from Container events only (what the harness wrapped - its input),
+    never from an answer of allsorts: the answer Trace_Sfnt prescribes with one digest limb / the length
+    changed, a font handed out for a member index beyond the end of a collection (and a query on it), an
+    absent tag answered with data; and the prescribed answers themselves, which must be accepted."""
+    woff = ttc = None
+    with open(trace) as f:
+        for ln in f:
+            if '"ev":"Container"' not in ln:
+                continue
+            e = json.loads(ln)
+            ms = e["a"]["members"]
+            if woff is None and e["a"]["kind"] == "woff" and ms and ms[0]["dir"]:
+                woff = e
+            if ttc is None and e["a"]["kind"] == "ttc" and ms and ms[0]["dir"]:
+                ttc = e
+            if woff is not None and ttc is not None:
+                break
+    if woff is None or ttc is None:
+        raise vlib.ToolError("the harness recorded no WOFF / no collection container to plant the self-check on")
+    out = []
+
+    def group(case, cont, evs):
+        c = json.loads(json.dumps(cont))
+        c["case"] = case
+        c["a"]["extra"] = {}
+        out.append(c)
+        for ev, a, o in evs:
+            out.append({"case": case, "ev": ev, "a": a, "o": o})
+
+    def answer(cont, member):
+        d = cont["a"]["members"][member]["dir"][0]
+        dg = list(cont["a"]["digests"][d["tid"] - 1])
+        return d["tag"], {"ok": True, "some": True, "digest": dg, "has": True}
+    tag, good = answer(woff, 0)
+    bad_digest = json.loads(json.dumps(good))
+    bad_digest["digest"][2] = (bad_digest["digest"][2] + 1) % 65536
+    bad_len = json.loads(json.dumps(good))
+    bad_len["digest"][0] = (bad_len["digest"][0] + 65535) % 65536          # one byte short
+    group("selftest-digest", woff, [("Query", {"member": 0, "tag": tag}, bad_digest)])
+    group("selftest-length", woff, [("Query", {"member": 0, "tag": tag}, bad_len)])
+    group("selftest-absent", woff, [("Query", {"member": 0, "tag": [122, 122, 90, 90]}, good)])
+    n = len(ttc["a"]["members"])
+    m0 = ttc["a"]["members"][0]
+    ttag, tgood = answer(ttc, 0)
+    prov0 = {"ok": True, "flavor": m0["flavor"], "tags": [d["tag"] for d in m0["dir"]]}
+    group("selftest-beyond", ttc, [("Provider", {"member": n}, prov0), ("Query", {"member": n, "tag": ttag}, tgood)])
+    group("selftest-accept", woff, [("Load", {}, {"ok": True, "kind": "woff"}),
+                                    ("Query", {"member": 0, "tag": tag}, good),
+                                    ("Query", {"member": 0, "tag": [122, 122, 90, 90]},
+                                     {"ok": True, "some": False, "digest": [], "has": False})])
+    group("selftest-accept", ttc, [("Load", {}, {"ok": True, "kind": "ttc"}), ("Provider", {"member": 0}, prov0),
+                                   ("Query", {"member": 0, "tag": ttag}, tgood),
+                                   ("Provider", {"member": n}, {"ok": False, "flavor": [], "tags": []})])
+    for k, x in enumerate(out):
+        x["i"] = 10 ** 8 + k
+    return out
+
+
+def _key_rec(m, backend, wrap):
+    got, want = m["got"], m["want"]
+    if "panic" in got:
+        cls = "panic"
+    elif not got.get("ok"):
+        cls = "err"
+    elif m["ev"] == "Query":
+        if not want.get("ok"):
+            cls = "answered-for-absent-member"
+        elif got.get("some") != want.get("some"):
+            cls = "data-for-absent-tag" if got.get("some") else "stored-table-absent"
+        elif got.get("digest", [])[:2] != want.get("digest", [])[:2]:
+            cls = "length"
+        elif got.get("digest") != want.get("digest"):
+            cls = "bytes"
+        else:
+            cls = "has_table"
+    elif m["ev"] == "Provider":
+        cls = "ok-for-absent-member" if not want.get("ok") else ("flavor" if got.get("flavor") != want.get("flavor") else "tags")
+    else:
+        cls = "kind"
+    return "rec|%s|%s|%s|%s" % (wrap, m["ev"], cls, backend)
+
+
 def run(ctx):
+    """Violations take precedence over tool problems: whatever was found before a later stage failed is
+    reported (exit 1); a tool error (exit 2) is raised only when there is nothing to report."""
+    violations, cov = [], {}
+    try:
+        _run(ctx, violations, cov)
+    except Exception as e:        # ToolError, or a driver exception on output it did not expect
+        known = vlib.load_known(ctx.prop)
+        if not any(v.key not in known for v in violations):
+            raise
+        ctx.note("a later stage failed after violations had been found; reporting the violations. Tool problem: %s" % str(e)[:1500])
+        cov.setdefault("states", 0)
+        cov.setdefault("transitions", 0)
+        cov.setdefault("traces_validated_against_impl", 0)
+        cov.setdefault("samples", [])
+        cov["incomplete_run"] = str(e)[:500]
+    vlib.finish(ctx, LEVEL, cov, violations, ASSUMPTIONS)
+
+
+def _run(ctx, violations, cov):
     backends = [("zlib", None, "")]
     backends.append(("rust", "rust", "-rust"))
     cfg = "MC_Sfnt_quick.cfg" if ctx.quick else "MC_Sfnt_thorough.cfg"
@@ -53,17 +176,20 @@ def run(ctx):
                 n_cases[0] += 1
                 if len(samples) < 2 and n_cases[0] % 997 == 5:
                     samples.append(json.loads(payload))
-        mc = vlib.run_tlc(ctx, "MC_Sfnt", cfg, "mc", workers=8, timeout=1500, sink=sink)
+        mc = vlib.run_tlc(ctx, "MC_Sfnt", cfg, "mc", workers=4, timeout=1500, sink=sink)
     ctx.note("MC_Sfnt: %d states, %d cases (%.1fs); RoundTripOK and NoOtherData hold" % (mc.distinct, n_cases[0], mc.wall))
     if n_cases[0] == 0:
         raise vlib.ToolError("no CASE lines generated")
+    cov.update({"states": mc.distinct, "generated_cases": n_cases[0], "samples": samples[:1]})
 
-    violations = []
     totals = {"queries": 0, "events": 0}
     kinds = {}
+    size_classes = {}
     trace = ctx.path("trace.ndjson")
     open(trace, "w").close()
     n_fonts = 14 if ctx.quick else 400
+    n_containers = n_queries_rec = 0
+    sample_events = []
     for name, feat, suffix in backends:
         binp = vlib.build_harness("c10_containers", features=feat, target_suffix=suffix)
         mism_path = ctx.path("mismatches-%s.ndjson" % name)
@@ -75,66 +201,73 @@ def run(ctx):
             violations.append(Violation(_key_gen(m) + "|" + name, "generated %s/%s container: want %s got %s" %
                                         (m["kind"], m["damage"], vlib.short(m["want"], 200), vlib.short(m["got"], 200)),
                                         {"source": "generated", "backend": name, **m}))
+        cov.update({"transitions": totals["queries"], "generated_case_kinds": kinds,
+                    "queries_on_generated_cases": totals["queries"],
+                    "traces_validated_against_impl": n_cases[0] * (1 + backends.index((name, feat, suffix)))})
         part = ctx.path("trace-%s.ndjson" % name)
         rec = vlib.run_harness(binp, ["record", ctx.seed, n_fonts, part])
-        ctx.note("record[%s]: %s" % (name, json.dumps(rec)))
+        size_classes[name] = rec.pop("size_classes", {})
+        ctx.note("record[%s]: %s, %d size classes" % (name, json.dumps(rec), len(size_classes[name])))
+        # vacuity guard on the harness' own inputs: the synthesized WOFF tables straddle every boundary
+        missing = [c for c in REQUIRED_CLASSES if size_classes[name].get(c, 0) == 0]
+        if missing:
+            raise vlib.ToolError("size classes not produced by the harness [%s]: %s" % (name, missing))
         with open(trace, "a") as f:
             for ln in open(part):
                 e = json.loads(ln)
                 e["case"] = name + ":" + e["case"]
+                if e["ev"] == "Container":
+                    n_containers += 1
+                elif e["ev"] == "Query":
+                    n_queries_rec += 1
+                    if len(sample_events) < 2:
+                        sample_events.append(e)
                 f.write(json.dumps(e, separators=(",", ":")) + "\n")
-    events = vlib.read_ndjson(trace)
-    # binding self-check: a Query answer with one digest limb changed must be rejected
-    planted = None
-    last_container = None
-    for e in events:
-        if e["ev"] == "Container":
-            last_container = e
-        if e["ev"] == "Query" and e["o"]["some"] and last_container is not None:
-            bad = json.loads(json.dumps(e))
-            bad["o"]["digest"][2] = (bad["o"]["digest"][2] + 1) % 65536
-            bad["case"] = "selftest-corrupt"
-            c2 = dict(last_container, case="selftest-corrupt")
-            planted = [c2, bad]
-            break
-    if planted is None:
-        raise vlib.ToolError("no successful table query recorded: trace is vacuous")
+    planted = _plant(trace)
     with open(trace, "a") as f:
-        for k, x in enumerate(planted):
-            x["i"] = 10 ** 8 + k
+        for x in planted:
             f.write(json.dumps(x, separators=(",", ":")) + "\n")
-    total, mism = vlib.judge_trace_parallel(ctx, "Trace_Sfnt", "Trace_Sfnt.cfg", trace, "judge", parts=4 if ctx.quick else 8)
+    other = {"UNMODELLED": []}
+    total, mism = vlib.judge_trace_parallel(ctx, "Trace_Sfnt", "Trace_Sfnt.cfg", trace, "judge", parts=4 if ctx.quick else 8,
+                                            other_tags=other)
     ctx.note("judge: %d events, %d mismatches" % (total, len(mism)))
-    planted_seen = False
+    rejected = set()
+    per_key = {}
     for m in mism:
-        if m["case"] == "selftest-corrupt":
-            planted_seen = True
+        if m["case"].startswith("selftest-"):
+            rejected.add((m["case"], m["ev"]))
             continue
         backend, rest = m["case"].split(":", 1)
         wrap = rest.rsplit("/", 1)[-1]
-        key = "rec|%s|%s|%s|%s" % (wrap, m["ev"], "ok" if m["got"].get("ok") else "err", backend)
+        key = _key_rec(m, backend, wrap)
+        per_key[key] = per_key.get(key, 0) + 1
+        if per_key[key] > 3:
+            continue
         violations.append(Violation(key, "recorded %s %s %s: want %s got %s" % (m["case"], m["ev"], vlib.short(m["a"], 80),
                                                                             vlib.short(m["want"], 160), vlib.short(m["got"], 160)),
                                     {"source": "recorded", **m}))
-    if not planted_seen:
-        raise vlib.ToolError("binding self-check failed: corrupted digest accepted by Trace_Sfnt")
-    n_containers = sum(1 for e in events if e["ev"] == "Container")
-    coverage = {
-        "states": mc.distinct,
-        "transitions": totals["queries"],
+    for k, n in sorted(per_key.items()):
+        ctx.note("mismatch class %s: %d events" % (k, n))
+    cov.update({
         "traces_validated_against_impl": n_cases[0] * len(backends) + n_containers,
-        "samples": samples[:1] + [e for e in events if e["ev"] == "Query"][:2],
-        "generated_cases": n_cases[0],
-        "generated_case_kinds": kinds,
-        "queries_on_generated_cases": totals["queries"],
+        "samples": samples[:1] + sample_events,
         "recorded_containers": n_containers,
+        "recorded_queries": n_queries_rec,
         "recorded_events_judged": total,
+        "synthesized_size_classes": size_classes,
         "flate2_backends": [b[0] for b in backends],
-        "binding_selfcheck": "corrupted digest rejected",
         "exhaustive": True,
-        "explanation": "exhaustive over the bounded container model (config %s), sampled repository fonts for recorded traces" % cfg,
-    }
-    vlib.finish(ctx, LEVEL, coverage, violations, ASSUMPTIONS)
+        "explanation": "exhaustive over the bounded container model (config %s); recorded direction: synthesized size-class "
+                       "containers (all) and sampled repository fonts" % cfg,
+    })
+    # these two depend on the specification, the harness' inputs and the driver only
+    if other["UNMODELLED"]:
+        raise vlib.ToolError("Trace_Sfnt met events it does not model: %s" % other["UNMODELLED"][:3])
+    if rejected != SELF_REJECT:
+        raise vlib.ToolError("binding self-check failed: Trace_Sfnt rejected %s, expected exactly %s" %
+                             (sorted(rejected), sorted(SELF_REJECT)))
+    cov["binding_selfcheck"] = ("%d planted non-conforming answers rejected (digest, length, data for an absent tag, member beyond "
+                                "the end + query on it), 7 planted conforming answers accepted" % len(SELF_REJECT))
 
 
 def replay(ctx, path):
